@@ -140,6 +140,14 @@ func (an *Analyzer) step(s *State, f *Frame, ins ssa.Instruction, final bool) {
 		t := an.valTerm(f, i)
 		s.vals[vkey{f, i}] = t
 		s.nn[t] = true
+		if final && i.Reserve != nil {
+			if _, isConst := i.Reserve.(*ssa.Const); !isConst {
+				sz := an.linOf(s, f, i.Reserve)
+				hi := s.hi(sz)
+				_, _, byLen := an.existingLenBound(s, sz)
+				an.record(f, i, "K12", "make(map, "+exprOf(i.Reserve)+")", hi <= an.cfg.AllocBound || byLen, fmt.Sprintf("map size hint %s has no upper bound that is a constant or the length of an existing buffer (range %s)", sz, itv{s.lo(sz), hi}), s)
+			}
+		}
 	case *ssa.MakeChan:
 		t := an.valTerm(f, i)
 		s.vals[vkey{f, i}] = t
